@@ -86,6 +86,11 @@ func (t *vTrace) Emit(ev map[string]interface{}) {
 	t.w.Write(b)
 	t.w.WriteByte('\n')
 	t.n++
+	// history boundaries reach the file at once: when the process dies (a panic of the code under test on one of its
+	// own goroutines) the check still sees every finished history and knows which one was in flight
+	if e, _ := ev["e"].(string); e == "begin" || e == "end" {
+		t.w.Flush()
+	}
 	t.mu.Unlock()
 }
 
